@@ -207,6 +207,20 @@ class C19(Property):
             return {'what': 'record/load raised %s' % impl['error'], 'msg': impl.get('msg')}
         skip = set()
         if impl.get('excluded'):
+            # restoring an excluded independent variable goes through set_val on the recorded inputs;
+            # a chain with a repeated position at an inner level is written last-write-wins at the
+            # outermost level only (C07's premise), so such a model has no defined restoration
+            md1 = self._md(case)
+            for cn in md1['conns']:
+                if cn['src'] is None:
+                    continue
+                sod = [o for o in md1['comps'][cn['src'][0]]['outs'] if o['name'] == cn['src'][1]][0]
+                try:
+                    if any(len(set(l)) != len(l) for l in gm.chain_levels(sod['shape'], cn['chain'])):
+                        return None
+                except Exception:
+                    return None
+        if impl.get('excluded'):
             # independent variables left out of the case are restored only as far as recorded inputs
             # read them (and through the inverse unit conversion): not compared entry by entry
             md0, = (self._md(case),)
